@@ -73,6 +73,16 @@ def _spec(draw, tier):
             if d["op"] == "delete_clamps":
                 d["state"] = draw(st.sampled_from([None, "v"]))
             oplist.append(d)
+        # synaptic trainables (parameters and initial states) followed by a deletion through a node view or an edge view
+        if op["op"] == "make_trainable_edge" and draw(st.integers(0, 1)) == 0:
+            if draw(st.booleans()):
+                op["u"] = 0.999  # the last name of (parameters + states): a synaptic *state* where the type has one
+            for _c in range(draw(st.integers(1, 3))):  # make sure there are synapses to train
+                oplist.insert(len(oplist) - 1, {"op": "connect", "pre": draw(fl(0.0, 0.999)), "post": draw(fl(0.0, 0.999)), "type": draw(st.sampled_from(ops.SYN))})
+            if draw(st.booleans()):
+                oplist.append({"op": "make_trainable", "key": draw(st.sampled_from(["radius", "length", "v"])), "rows": draw(ops.ROWS), "pick": 0.0})
+            oplist.append(draw(st.sampled_from([{"op": "delete_trainables", "rows": draw(ops.ROWS)},
+                                                {"op": "delete_trainables_edge", "pick": draw(fl(0.0, 0.999)), "edges": draw(ops.ROWS)}])))
     return {"kind": "network" if network else "cell", "cells": cells, "ops": oplist,
             "solver": draw(st.sampled_from(["bwd_euler", "bwd_euler", "crank_nicolson"])), "backend": draw(st.sampled_from(["jaxley.stone", "jax.sparse"]))}
 
@@ -305,14 +315,43 @@ def _post(rec, s0, s1, prev):
             if i1 != [i0[j] for j in keep] or (len(keep) and not np.array_equal(v1, v0[keep])):
                 return f"{k}({rec.get('state')}) on rows {sorted(rows)}: external_inds[{key}] {i0} -> {i1}, expected {[i0[j] for j in keep]}"
     elif k == "delete_trainables":
-        for p, inds in zip(s1["trainable_params"], s1["indices_set_by_trainables"]):
-            key = next(iter(p))
-            if key in s1["nodes"].columns:
-                hit = sorted(set(int(x) for x in np.asarray(inds).ravel() if x >= 0) & rows)
-                if rec["whole"] or hit:
-                    return f"delete_trainables() on rows {sorted(rows) if not rec['whole'] else 'all'} left the trainable {key} on rows {hit or np.asarray(inds).tolist()}"
-        if rec["whole"] and s1["trainable_params"]:
-            return f"delete_trainables() on the module left {[next(iter(p)) for p in s1['trainable_params']]}"
+        # both directions: every (key, row) pair inside the view is gone, every pair outside the view is still
+        # trainable with the value it had (how the library regroups shared parameters is not judged)
+        e0 = s0["edges"]
+        if rec["whole"]:
+            in_nodes, in_edges = None, None
+        elif rec.get("via") == "edges":
+            in_nodes, in_edges = rows, set(rec["edges"])
+        else:
+            in_nodes = rows
+            in_edges = {int(i) for i in e0.index if int(e0.loc[i, "pre_global_comp_index"]) in rows and int(e0.loc[i, "post_global_comp_index"]) in rows} if len(e0) else set()
+
+        def pairs(snapshot):
+            out_ = []
+            for p, inds in zip(snapshot["trainable_params"], snapshot["indices_set_by_trainables"]):
+                key, val = next(iter(p.items()))
+                val = np.asarray(val, dtype=float).ravel()
+                inds = np.asarray(inds)
+                for r in range(inds.shape[0]):
+                    for x in inds[r].ravel():
+                        if x >= 0:
+                            out_.append((key, int(x), float(val[r]) if r < len(val) else float("nan")))
+            return sorted(out_)
+
+        before, after = pairs(s0), pairs(s1)
+        def inside(key, x):
+            if rec["whole"]:
+                return True
+            if key in s0["nodes"].columns:
+                return x in in_nodes
+            return x in in_edges
+        want = [t for t in before if not inside(t[0], t[1])]
+        if after != want:
+            gone = [t for t in want if t not in after]
+            left = [t for t in after if t not in want]
+            where = "the module" if rec["whole"] else (f"edges {sorted(in_edges)} (nodes {sorted(rows)})" if rec.get("via") == "edges" else f"rows {sorted(rows)} (edges inside: {sorted(in_edges)})")
+            return (f"delete_trainables() on {where}: trainable (key, row, value) triples {before[:8]} -> {after[:8]}; "
+                    f"wrongly removed {gone[:4]}, wrongly kept {left[:4]}")
     return None
 
 
